@@ -324,14 +324,13 @@ def noDups {α} [BEq α] : List α → Bool
 
 def showOpt (o : Option DateTime) : String := showOptDt o
 
-/-- F2 (overlapping periods) only excuses the clauses it is known to break: duplicates and what follows
-    from them; F1 (reverse order with tie) excuses every clause that evaluates the rule -/
+/-- The search assumes that the rule's yearly instants interleave; for an accepted rule whose periods
+    overlap (F2) its six-instant window is not sorted and every clause about the rule part of the result
+    can fail (duplicates, entries before the last table transition, order). The class predicate is on the
+    rule, so a zone without such a rule is never excused. -/
 def kfTagDup (z : TimeZone) : String := kfTag z
 
-def kfTagF1 (z : TimeZone) : String :=
-  match ruleOf z with
-  | some a => if classReverseTie a then "[KF:rule_reverse_order_with_tie]" else ""
-  | none => ""
+def kfTagF1 (z : TimeZone) : String := kfTag z
 
 def findOracles (z : TimeZone) (y mo d h mi s ns : Int) (rhs : List String) : Verdicts :=
   let tag := kfTagF1 z
